@@ -429,3 +429,93 @@ def tt_glyph_roundtrip(pat, drop):
     ob('same-outline', outline_eq(got, want, drop_single_points=True))
     if not drop:
         ob('point-count-kept', len(g.coordinates) == sum(len(c) for c in contours if len(c) > 0))
+
+
+# ------------------------------------------------------------------------------------------------ CFF glyph building and drawing
+import fontTools.pens.t2CharStringPen as T2P
+import fontTools.misc.psCharStrings as PSC
+import fontTools.cffLib.specializer as SPZ
+shim_all(T2P, PSC, SPZ)
+
+
+def ishape(name):
+    """the shapes of mkshape with symbolic INTEGER coordinates (a CFF charstring built with roundTolerance 0.5 stores integers)"""
+    n = [0]
+
+    def p(i):
+        return (V.int('%s%dx' % (name, i), -400, 400, bv=False), V.int('%s%dy' % (name, i), -400, 400, bv=False))
+    S = {
+        'tri': lambda: [('moveTo', (p(0),)), ('lineTo', (p(1),)), ('lineTo', (p(2),)), ('closePath', ())],
+        'lc': lambda: [('moveTo', (p(0),)), ('lineTo', (p(1),)), ('curveTo', (p(2), p(3), p(4))), ('closePath', ())],
+        'cc': lambda: [('moveTo', (p(0),)), ('curveTo', (p(1), p(2), p(3))), ('curveTo', (p(4), p(5), p(6))), ('closePath', ())],
+        'ccl': lambda: [('moveTo', (p(0),)), ('curveTo', (p(1), p(2), p(3))), ('curveTo', (p(4), p(5), p(6))), ('lineTo', (p(7),)), ('closePath', ())],
+        'two': lambda: [('moveTo', (p(0),)), ('lineTo', (p(1),)), ('lineTo', (p(2),)), ('closePath', ()), ('moveTo', (p(3),)), ('curveTo', (p(4), p(5), p(6))), ('closePath', ())],
+    }
+    return S[name]()
+
+
+@kernel('C14', funcs=['pens/t2CharStringPen.py:T2CharStringPen.getCharString', 'pens/t2CharStringPen.py:T2CharStringPen._curveToOne', 'cffLib/specializer.py:specializeCommands',
+                      'misc/psCharStrings.py:T2CharString.draw', 'misc/psCharStrings.py:T2OutlineExtractor.op_vvcurveto', 'misc/psCharStrings.py:T2OutlineExtractor.op_hhcurveto'],
+        bounds='outlines of 5 shapes (lines, one or two consecutive cubics, two contours) with symbolic INTEGER coordinates - zero / non-zero patterns of every '
+               'delta, which select the specialised h/v operator forms and their merging, are solver forks - built into a CFF charstring with T2CharStringPen '
+               '(optimize in {True, False}, symbolic width) and drawn again: same canonical outline, same width',
+        quick=[dict(shape=s, opt=True) for s in ('tri', 'lc', 'cc')] + [dict(shape='cc', opt=False)], thorough=[dict(shape=s, opt=o) for s in ('tri', 'lc', 'cc', 'ccl', 'two') for o in (True, False)],
+        max_paths=200000)
+def t2_pen_roundtrip(shape, opt):
+    ev = ishape(shape)
+    width = V.int('width', 0, 1000, bv=False)
+    pen = T2P.T2CharStringPen(width, None)
+    replay(ev, pen)
+    priv = type('P', (), {'nominalWidthX': 0, 'defaultWidthX': 500})()
+    cs = pen.getCharString(private=priv, optimize=opt)
+    rec = RP.RecordingPen()
+    cs.draw(rec)
+    observe('n_tokens', len(cs.program))
+    if opt:
+        # the default (optimising) charstring keeps the FILLED outline: zero-length lines go, a curve whose control points sit on its end
+        # points is a line, consecutive collinear horizontal / vertical lines merge (C12's canonical form), then closing line and start
+        # point are normalised as everywhere in this file
+        from harness.C12_charstring import canonical as fill_canon
+        ob('same-outline', outline_eq(canon(fill_canon(rec.value)), canon(fill_canon([(op, tuple(pts)) for op, pts in ev]))))
+    else:
+        ob('same-outline', outline_eq(canon(rec.value), canon(ev)))
+    ob('same-width', eq(cs.width, width))
+
+
+@kernel('C14', funcs=['pens/boundsPen.py:ControlBoundsPen._moveTo', 'pens/boundsPen.py:ControlBoundsPen._addMoveTo', 'pens/boundsPen.py:ControlBoundsPen._lineTo',
+                      'pens/boundsPen.py:ControlBoundsPen._curveToOne', 'pens/boundsPen.py:ControlBoundsPen._qCurveToOne', 'misc/arrayTools.py:updateBounds'],
+        bounds='contours of 2-4 points (a line, one quadratic, one cubic; closed and open; a lone moveTo) with symbolic coordinates, ignoreSinglePoints in '
+               '{False, True}: the control bounds are exactly the min / max over ALL points of the drawn contours (the start point included), and a contour '
+               'consisting of a single point is ignored exactly when ignoreSinglePoints is set',
+        quick=[dict(shape=s, isp=i) for s in ('line', 'quad', 'cubic', 'quad-open') for i in (False, True)] + [dict(shape='dot+line', isp=True)],
+        max_paths=200000)
+def control_bounds_are_minmax(shape, isp):
+    p = [P('c%d' % i) for i in range(5)]
+    S = {
+        'line': [('moveTo', (p[0],)), ('lineTo', (p[1],)), ('closePath', ())],
+        'quad': [('moveTo', (p[0],)), ('qCurveTo', (p[1], p[2])), ('closePath', ())],
+        'quad-open': [('moveTo', (p[0],)), ('qCurveTo', (p[1], p[2])), ('endPath', ())],
+        'cubic': [('moveTo', (p[0],)), ('curveTo', (p[1], p[2], p[3])), ('closePath', ())],
+        'dot+line': [('moveTo', (p[0],)), ('closePath', ()), ('moveTo', (p[1],)), ('lineTo', (p[2],)), ('closePath', ())],
+    }[shape]
+    pen = BO.ControlBoundsPen(None, ignoreSinglePoints=isp)
+    replay(S, pen)
+    pts = []
+    contour = []
+    for op, a in S:
+        if op == 'moveTo':
+            contour = [a[0]]
+        elif op in ('closePath', 'endPath'):
+            if len(contour) > 1 or not isp:
+                pts += contour
+        else:
+            contour += [q for q in a if q is not None]
+    b = pen.bounds
+    ob('bounds-exist', b is not None)
+    if b is None:
+        return
+    xs, ys = [q[0] for q in pts], [q[1] for q in pts]
+
+    def is_min(v, vals, sign):
+        return conj([disj([eq(v, w) for w in vals])] + [le(sign * v, sign * w) for w in vals])
+    ob('control-bounds-are-min-max-of-all-points', conj([is_min(b[0], xs, 1), is_min(b[1], ys, 1), is_min(b[2], xs, -1), is_min(b[3], ys, -1)]))
